@@ -13,7 +13,7 @@ def one(wt):
         head=open(demo).read().split('\n')[:6]
         if demo.endswith('.sh'):
             dest='out/_demo_run.sh'
-            cmd='cargo build --offline --release --examples -p xml-xpath >/dev/null 2>&1 && sh out/_demo_run.sh'
+            cmd='cargo build --offline --release --examples -p xml-xpath >/dev/null 2>&1 && BIN=target/release/examples sh out/_demo_run.sh'
         else:
             m=re.search(r'(\S+/tests/\S+\.rs)', ' '.join(head)); c=re.search(r'(cargo test [^\n]*--offline)', ' '.join(head))
             if not m or not c: res.append((md,'cannot-parse-header')); continue
